@@ -41,6 +41,11 @@ class Conc(Family):
             out.append((case("proxy", [("shmem_unmap", 1), ("shmem_unmap", 201)], 0, 3000), "proxy-stress"))
             out.append((case("proxy", [("shmem_map", 1), ("shmem_map", 202), ("shared_object_remove", 3)], 0, 3000), "proxy-stress"))
             out.append((case("proxy", [("shared_object_add", 1), ("shared_object_remove", 203)], 0, 3000), "proxy-stress"))
+            # the acknowledgement setting is switched off and on by one clone while others have calls in flight (accepted ids only:
+            # with acknowledgements off a refusal cannot be seen)
+            out.append((case("proxy", [("shared_object_add", 1), ("shmem_unmap", 2), ("toggle_ack", 0)], 0, 3000), "proxy-stress"))
+            out.append((case("proxy", [("shmem_map", 1), ("toggle_ack", 0)], 0, 3000), "proxy-stress"))
+            out.append((case("proxy", [("shared_object_remove", 1), ("toggle_ack", 0)], rng.choice([10, 20]), 3), "proxy-2"))
             px_ops = ["shared_object_add", "shared_object_remove", "shmem_map", "shmem_unmap"]
             for a in px_ops:
                 for b in px_ops:
